@@ -18,7 +18,7 @@
 #include <sys/stat.h>
 
 typedef struct {
-    wcfg cfg; blob content; char *scheds; int closefds; char *ops; char *save;
+    wcfg cfg; blob content; char *scheds; int closefds; char *ops; char *save; int recover;
     deviation plan[8]; int nplan; int trace; int meta;   /* C12: environment answers for the write path (output and temp file) */
 } wcase;
 typedef struct { wcase *cases; int n; } wctx;
@@ -93,13 +93,18 @@ static void run_one(int idx, FILE *out, void *vctx) {
             } else die("bad op %s", op);
             if(nret < 64) fprintf(out, "%s%zd", nret ? "," : "", r);
             nret++;
-            if(r < 0) { failed = true; break; }
+            if(r < 0) {
+                failed = true;
+                /* recover 1: a caller that clears the error and goes on (and closes at the end); what the file must then be is
+                 * judged by the check, the default is to stop at the first failed call */
+                if(!k->recover || !zck_clear_error(zck)) break;
+            }
         }
         free(ops);
     }
     if(!nret) fputc('-', out);
     int cl = 0;
-    if(ok && !failed) cl = zck_close(zck);
+    if(ok && (!failed || k->recover)) cl = zck_close(zck);
     fprintf(out, " nrets=%d fail=%d close=%d written=%zu werr=", nret, failed, cl, pos);
     const char *e = zck_get_error(zck);
     put_hex(out, e, strlen(e) > 60 ? 60 : strlen(e));
@@ -168,6 +173,7 @@ int cmd_writehist(FILE *job, FILE *out) {
         else if(!strcmp(t[0], "closefds")) cur.closefds = (1 << atoi(t[1])) - 1;
         else if(!strcmp(t[0], "closemask")) cur.closefds = atoi(t[1]);
         else if(!strcmp(t[0], "save")) cur.save = strdup(t[1]);
+        else if(!strcmp(t[0], "recover")) cur.recover = atoi(t[1]);
         else if(!strcmp(t[0], "plan")) cur.nplan = parse_plan(t[1], cur.plan, 8);
         else if(!strcmp(t[0], "trace")) cur.trace = atoi(t[1]);
         else if(!strcmp(t[0], "meta")) cur.meta = atoi(t[1]);
